@@ -10,7 +10,7 @@ import (
 // Generated programs are lists of lines; every line is a complete top-level
 // statement, so that the minimiser can drop lines.
 
-var simDirs = map[string]string{"/home/d1/": "", "/home/d2/": "", "/home/d1/sub/": "", "/home/f1.txt": "file one\n", "/home/f2.txt": "l1\nl2\nl3\n", "/home/d1/g.sh": "gv=sourced\n"}
+var simDirs = map[string]string{"/home/d1/": "", "/home/d2/": "", "/home/d1/sub/": "", "/home/f1.txt": "file one\n", "/home/f2.txt": "l1\nl2\nl3\n", "/home/d1/g.sh": "gv=sourced\n", "/home/d1/loop.sh": "while :; do :; done\n"}
 
 // stateNames are the names a generated parent state may define.
 var (
@@ -74,6 +74,7 @@ func genSetup(r *kit.Rand, inFunc bool) []string {
 func genMutations(r *kit.Rand, n int, inFunc bool, quiet bool) []string {
 	pool := []string{
 		"s1=changed", "s1+=x", "s2=", "unset s1", "s1=(now an array)",
+		"a+=([1]=X)", "a+=([0]=Z w)", "a+=([-1]=neg)", "sp+=([2]=chg)", "sp+=([5]=chg [9]=far)", "m+=([k]=new)", "m+=([q]=1)", "read -a sp <<< 's1 s2'", "unset 'm[k2]'", "declare -A m", "export a", "readonly sp", "declare -x m",
 		"a[0]=z", "a+=(n)", "a+=x", "a[5]=q", "a[-1]=neg", "unset 'a[1]'", "unset a", "a=(re set)", "a[1]+=app",
 		"sp[3]=new", "sp+=(w)", "unset 'sp[2]'", "sp+=x", "sp[2]=chg",
 		"m[k]=changed", "m[new]=1", "m+=([z]=1)", "unset 'm[k]'", "m[k]+=app",
